@@ -11,5 +11,6 @@ pub(crate) fn parser_dispatch(name: &str) -> Option<fn()> {
     super::parser::verif_parser::dispatch(name)
 }
 
+
 crate::verif_common::registry! {
 }
